@@ -62,7 +62,7 @@ Lemma tracked_at : forall o u recs u',
   u' = fold_left (next_user facts then_from_scratch) recs u /\
   forall pre r post, recs = (pre ++ r :: post)%list ->
     rec_tracked facts when_from_scratch then_from_scratch c
-                (fold_left (next_user facts then_from_scratch) pre u) r (post = [] /\ o = OQuiescent).
+                (fold_left (next_user facts then_from_scratch) pre u) r ((post = [] /\ o = OQuiescent) \/ c_cancel c = None).
 Proof.
   intros o u recs u' H. induction H as [u|u r recs u' Hr Ht [IH1 IH2]].
   - split; auto. intros pre r post E. destruct pre; discriminate.
@@ -78,7 +78,7 @@ Lemma impl_tracked : forall fuel (u : estate) sf recs o,
   impl_execute fuel c order u es = (sf, recs, o) ->
   es_facts (s_user sf) = facts_after (es_facts u) recs /\
   forall pre r post, recs = (pre ++ r :: post)%list ->
-    rec_tracked facts when_from_scratch then_from_scratch c (facts_after (es_facts u) pre) r (post = [] /\ o = OQuiescent).
+    rec_tracked facts when_from_scratch then_from_scratch c (facts_after (es_facts u) pre) r ((post = [] /\ o = OQuiescent) \/ c_cancel c = None).
 Proof.
   intros fuel u sf recs o Hfx H.
   pose proof (engine_refines_spec_from rules meth panics_inside mutating meth_pure Hrules Hdep fuel c order u es Hfx) as Href.
@@ -151,6 +151,14 @@ Definition C02_statement : Prop :=
        forall e, In e es -> active pre e = true ->
          when_from_scratch (facts_after (es_facts u) pre) (e_key e) = CTrue ->
          In (cr_begin r, e_key e, true) (cr_evals r)) /\
+    (* when the context is never cancelled, the same holds for every cycle whose evaluation pass was completed: the one
+       that exceeds the budget, the one that finds nothing, the one whose action list fails *)
+    (c_cancel c = None ->
+     forall pre r post, recs = (pre ++ r :: post)%list ->
+       Permutation (map ev_key (cr_evals r)) (map e_key (filter (active pre) es)) ->
+       forall e, In e es -> active pre e = true ->
+         when_from_scratch (facts_after (es_facts u) pre) (e_key e) = CTrue ->
+         In (cr_begin r, e_key e, true) (cr_evals r)) /\
     (* nil without Complete: no active rule's condition holds on the final facts *)
     (o = OQuiescent ->
        exists pre r, recs = (pre ++ [r])%list /\ cr_fx r = [] /\
@@ -187,7 +195,13 @@ Proof.
     destruct (Hk Hst) as (n & k & Ek & _).
     destruct (exact_flag _ r pre e (Hex (or_introl Hst)) Hnum (Hperm ltac:(congruence)) Hin Hact) as (b & Hb & ->).
     rewrite Hc in Hb. exact Hb.
-  - intros ->. destruct (Hq eq_refl) as (pre & r & E & Hnone & Hfalse & Hperm).
+  - split.
+    { intros Hnc pre r post E Hperm e Hin Hact Hc.
+      destruct (Hd pre r post E) as (_ & Hnum & _ & _ & _ & _).
+      destruct (Htr pre r post E) as (_ & Hex & _).
+      destruct (exact_flag _ r pre e (Hex (or_intror (or_intror Hnc))) Hnum Hperm Hin Hact) as (b & Hb & ->).
+      rewrite Hc in Hb. exact Hb. }
+    intros ->. destruct (Hq eq_refl) as (pre & r & E & Hnone & Hfalse & Hperm).
     exists pre, r. split; [exact E|].
     destruct (Hd pre r [] E) as (_ & Hnum & _ & _ & _ & _).
     destruct (Htr pre r [] E) as (_ & Hex & _).
@@ -200,7 +214,7 @@ Proof.
       destruct (cr_started r) eqn:Es; auto.
       destruct (Htr pre r [] E) as (_ & _ & Hk). destruct (Hk Es) as (n & k & Ek & _). congruence.
     + intros e Hin Hact Hc.
-      destruct (exact_flag _ r pre e (Hex (or_intror (conj eq_refl eq_refl))) Hnum Hperm Hin Hact) as (b & Hb & Eb).
+      destruct (exact_flag _ r pre e (Hex (or_intror (or_introl (conj eq_refl eq_refl)))) Hnum Hperm Hin Hact) as (b & Hb & Eb).
       rewrite Hfin, Hfa in Hc. rewrite Hc in Eb. simpl in Eb. subst b.
       rewrite Forall_forall in Hfalse. specialize (Hfalse _ Hb). discriminate.
 Qed.
